@@ -190,6 +190,7 @@ fn main() {
                 docs.extend(c07::renderings_d1(kind));
                 let docs = generic::dedup_docs(docs);
                 generic::c09(&subs, &docs, tier, &budget, &mut report);
+                generic::c09_finish();
                 report.completed.push(format!("{kind}: {} documents (corpus + every layout rendering with at most one non-default slot of three formulas) x {} streaming subjects, line gated source, DEV(1..2) x chunk sizes", docs.len(), subs.len()));
                 sample_docs(&mut report, kind, &inp.corpus);
             }
